@@ -1,15 +1,37 @@
-// unit `chordal_tree` : index-level pieces of the supernodal elimination tree (C17)
+// unit `chordal_tree` : index-level pieces of the supernodal elimination tree and of the parent-child merge (C17)
 //
-// PROVED (real text of /repo/src/solver/chordal/supernode_tree.rs, unbounded, panic-freedom + the structural clause):
-//   find_parent_direct, parent_from_L, higher_degree, find_higher_order_neighbors, children_from_parent,
-//   SuperNodeTree::{get_post_order, get_snode, get_separators, get_clique_parent, get_nblk, get_overlap,
-//   calculate_block_dimensions, get_decomposed_dim_and_overlaps}, triangular_number (re-proved here, as in unit scalarmath)
+// PROVED (real text of /repo/src/solver/chordal/**, unbounded: panic-freedom (index, overflow, unwrap) + the structural clause):
+//   supernode_tree.rs: find_parent_direct, parent_from_L (parent[i] = first stored row of column i, last vertex = only root; for a strictly
+//     lower pattern the pointers go strictly upwards), higher_degree, find_higher_order_neighbors, children_from_parent (children[p] = exactly
+//     the i with parent[i] == p, once each, in increasing order), SuperNodeTree::{get_post_order, get_snode, get_separators,
+//     get_clique_parent, get_nblk, get_overlap, calculate_block_dimensions (+ frame), get_decomposed_dim_and_overlaps (sums of triangular
+//     numbers)}, the vertex loop of pothen_sun as statement slice `pothen_sun_loop` (all indexing, `degree[v] - 1`, the isize counters, and
+//     the partition invariant sn_inv: every vertex is a representative or points at a representative with further members)
+//   merge/parent_child.rs: determine_parent, clique_dim, fill_in
+//   algebra/scalarmath.rs: triangular_number (re-proved here as in unit scalarmath)
 // ASSUMED (hand-written stand-ins, not verified):
-//   VertexSet = indexmap::IndexSet<usize>: ghost view `Seq<usize>` = the elements in insertion order; contracts of
-//     `insert` (appends iff absent, returns "was absent"), `len`, `contains`, `is_empty`, `clear` as documented by indexmap;
+//   VertexSet = indexmap::IndexSet<usize>: ghost view `Seq<usize>` = the members in insertion order; contracts of `insert` (appends iff
+//     absent, returns "was absent"), `contains`, `len`, `is_empty`, `clear`, `iter` (yields the members in insertion order; the stand-in
+//     returns them as a slice) as documented by indexmap;
 //   new_vertex_sets(n) (`(0..n).map(|_| VertexSet::new()).collect()`: map + collect are outside Verus): n empty sets.
-// The chordal module is compiled only with the cargo feature `sdp`; the extractor works on the source text, none of the
-// functions below contains a `#[cfg]`, so nothing is dropped by R12.
+// EXTRACTOR: rule `setiter:NAME` (added for this unit, additive): `for x in NAME` -> `for x in NAME.iter()` for a reference to an IndexSet
+//   (the definition of `IntoIterator for &IndexSet`).  The chordal module is compiled only with the cargo feature `sdp`; the extractor works on
+//   the source text and none of the functions below contains a `#[cfg]`, so R12 drops nothing and no feature switch was needed.
+// PRECONDITIONS and the call sites (SuperNodeTree::new <- SparsityPattern::new <- analyse_psdtriangle_sparsity_pattern <- find_graph):
+//   L.n >= 1 (`L.nrows() - 1` / `L.n - 1` underflow for a 0 x 0 factor): holds, find_graph is only reached with a mask that is not all-true,
+//     hence non-empty (an empty PSD cone returns early: `all()` of nothing is true);
+//   L_connected (every column but the last non-empty; else `L.rowval[L.colptr[v]]` reads the next column or past the end): established by
+//     connect_graph, proved in unit chordal_decomp; L_wf / strictly lower: QDLDL's L (not re-proved here);
+//   parent_ok for children_from_parent: 1st call parent_from_L (above), 2nd call the renumbering loop of pothen_sun (`position` index or
+//     NO_PARENT; by inspection, that part is closure code and not under contract);
+//   pothen_sun_loop `degree[v] >= 1 for every non-root`: holds because only the last vertex is a root and higher_degree gives the
+//     column length, >= 1 by L_connected; without connect_graph a disconnected pattern would underflow here;
+//   fill_in `dim_clique_sep <= dim_parent`: the separator of a child is a subset of the parent clique in a clique tree (not proved here).
+// DROPPED (said so that nobody assumes otherwise): find_supernodes / the tail of pothen_sun (position_all, map, collect, retain closures),
+//   find_separators (`iter().min().unwrap()`, zip over IndexSets), post_order (termination of the stack loop needs a forest argument over
+//   ghost sets; IndexSet::sort, Vec::extend(iter), sort_by closure), reorder_snode_consecutively (sort + IndexSet::extend + invperm /
+//   ipermute), get_clique (union + for_each closure), merge_two_cliques / set_union_into_indexed (shift_remove, deferred `let (a, b);`),
+//   the whole clique-graph merge (HashMap / closures).  pothen_sun_loop says nothing about the *values* written to snode_parent.
 use vstd::prelude::*;
 verus! {
 global size_of usize == 8;
